@@ -101,6 +101,9 @@ def parseBase (o : Oracle Nat Nat) (inner : List Nat) (j : Json) : R Call := do
     let arg := changeArg o rq
     return ⟨(arg.map (fun v => writeInner o v ck inner w)).getD [], arg.bind (fun v => writeEv o v ck w),
             fun p _ => changeOps o k p rq ck inner w⟩
+  | [.str "do", k] =>
+    let k ← k.getNat?
+    return ⟨innerEvs inner, none, fun p _ => doOps k p inner⟩
   | .str "rread" :: k :: rest =>
     let k ← k.getNat?
     let res ← parseReadRes rest
